@@ -232,19 +232,27 @@ func (r c19Reporter) Report(prop, clause, sig, msg string) {
 }
 
 // replicaLog renders everything that was sent to one replica.
-func replicaLog(tr *cyc.CycleTrace, id string) []string {
+func replicaLog(o *Outcome, id string) []string {
 	var out []string
-	for _, r := range tr.Replicas {
-		if r.ID != id {
+	// per shard, in the order the shard received them, over all cycles of the run
+	byHost := map[string][]string{}
+	var hosts []string
+	for _, c := range o.AllCalls {
+		if !strings.HasPrefix(c.Host, id+"-") {
 			continue
 		}
-		for _, s := range r.Shards {
-			for _, c := range s.Calls {
-				out = append(out, fmt.Sprintf("%s %s %s %s body=%s", s.ID, c.Method, c.Path, c.Verdict, canonBody(c.ReqBody)))
-			}
+		if _, ok := byHost[c.Host]; !ok {
+			hosts = append(hosts, c.Host)
 		}
-		for _, x := range r.Scale {
-			out = append(out, fmt.Sprintf("scale %d", x.Value))
+		byHost[c.Host] = append(byHost[c.Host], fmt.Sprintf("%s %s %s %s body=%s", c.Host, c.Method, c.Path, c.Verdict, canonBody(c.ReqBody)))
+	}
+	sort.Strings(hosts)
+	for _, h := range hosts {
+		out = append(out, byHost[h]...)
+	}
+	for _, s := range o.AllScale {
+		if strings.HasPrefix(s, id+":") {
+			out = append(out, "scale "+s)
 		}
 	}
 	return out
@@ -304,7 +312,7 @@ func otherClass(sc *Scenario, ri int) string {
 }
 
 func c19Run(tp *core.Tape, e *core.Env) {
-	sc := Generate(tp, Gen{Replicas: 2, ReqFaults: true, ReplicaErrs: true, MaxShards: 4})
+	sc := Generate(tp, Gen{Replicas: 2, ReqFaults: true, ReplicaErrs: true, MaxShards: 4, MultiCycle: true})
 	both := Run(tp, e, sc, []int{0, 1})
 	e.AddSim(both.Elapsed + 10*time.Second)
 	if both.Trace.Panic != "" || both.Trace.Deadlock {
@@ -319,7 +327,7 @@ func c19Run(tp *core.Tape, e *core.Env) {
 	for _, ri := range []int{1, 0} {
 		alone := Run(tp, e, sc, []int{ri})
 		id := fmt.Sprintf("r%d", ri)
-		a, b := replicaLog(both.Trace, id), replicaLog(alone.Trace, id)
+		a, b := replicaLog(both, id), replicaLog(alone, id)
 		if strings.Join(a, "\n") != strings.Join(b, "\n") {
 			what := "requests"
 			first := ""
@@ -348,7 +356,7 @@ func c19Run(tp *core.Tape, e *core.Env) {
 			e.Violate("depends-on-other-replica", "differs="+what+",other="+otherClass(sc, 1-ri)+",position="+pos,
 				"what replica %s is sent differs with and without the other replica: %s", id, first)
 		}
-		e.Key("other="+otherClass(sc, 1-ri), "self="+otherClass(sc, ri), fmt.Sprintf("requests=%d", len(a) > 0))
+		e.Key("other="+otherClass(sc, 1-ri), "self="+otherClass(sc, ri), fmt.Sprintf("requests=%v", len(a) > 0), fmt.Sprintf("cycles=%d", sc.Cycles))
 	}
 	countFaults(e, sc)
 	probes(e, both.Trace, both)
